@@ -129,6 +129,17 @@ impl HeaderPrefix {
         max_table_size: usize,
     ) -> Result<(usize, usize), ParseError> {
         if max_table_size == 0 {
+            // https://www.rfc-editor.org/rfc/rfc9204.html#section-4.5.1.1
+            // With MaxEntries = 0 every non-zero encoded Required Insert Count is out of range,
+            // and a negative Base (Sign bit with a Required Insert Count of 0) is invalid.
+            if self.encoded_insert_count != 0 {
+                return Err(ParseError::InvalidBase(self.encoded_insert_count as isize));
+            }
+            if self.sign_negative {
+                return Err(ParseError::InvalidBase(
+                    (self.delta_base as isize).wrapping_neg().wrapping_sub(1),
+                ));
+            }
             return Ok((0, 0));
         }
 
